@@ -122,6 +122,8 @@ fn main() {
     ctx.assume("'unchanged by check_ref' = Debug string of the builder before and after (builders without Debug: PLS, random projection - covered only through fit-after-check_ref equality); the count vectoriser's cached compiled regex (a RefCell filled by check_ref) is not a parameter and is masked");
     ctx.assume("fingerprint of a fitted model = its Debug string, or predictions / sorted vocabulary / canonical partition where the model contains a HashMap (naive Bayes, count vectoriser, hierarchical) ; all fits use fixed seeds");
     ctx.assume("history dimension (explicit-state exploration of the builder value): for every grid point B the builder is ALSO reached through four histories - configured at the valid reference point A then check_ref then the setters of B on the same value; the same with a clone taken after the check; a fit on the unchecked builder at A instead of the check; configured at the invalid reference point A' and rejected first - and check_ref(), check() and the unchecked training calls at B must equal those of the freshly built builder (same error Debug string, same model fingerprint). Constructor-only arguments (k-means / GMM n_clusters, DBSCAN / OPTICS min_points, PLS n_components, FastICA ncomponents) stay those of B; a history whose setter chain cannot reach B's parameter values (setters that cannot unset an Option) is counted as not comparable; builders without Clone (PLS, random projection) have no clone history; the clone / fit / rejected histories run only the first training form");
+    ctx.assume("check() leaves the parameters unchanged: the Debug string (accessors for random projection) of the value RETURNED by check() must equal that of the value behind check_ref() of the same builder and must be contained in the builder's own Debug string (sig *.check_vs_check_ref.checked_params_differ / *.check_ref.checked_params_differ_from_builder); the three PLS builders expose neither Debug nor accessors on their checked parameters and are covered only through the equality of the fitted models");
+    ctx.assume("enum-valued / structured settings without a documented range are free axes of the grids (k-means init incl. Precomputed with rows == and != n_clusters, GMM init method, DBSCAN / OPTICS neighbour index, SVM kernel, PLS algorithm and scale, tree split quality / depth / leaf weight, logistic initial parameters, Tweedie link, t-SNE preliminary iterations): every value is documented valid; k-means Precomputed with rows != n_clusters passes both checks and then hits the assert of KMeansInit::run in BOTH forms (counted under valid_points_where_both_forms_panic, not a violation of this property)");
     ctx.assume("a documented-invalid point that check() accepts is reported and NOT trained on; values flagged skip_ops (solver can only stop at its iteration cap) get the verdict oracles but no training call");
 
     let mut cases: Vec<Case> = Vec::new();
